@@ -21,5 +21,5 @@ TRUSTED = ["model: coq/theories/Model/{Samples,SSet,ChkC14}.v (hand-written mirr
            "NumPy structured-array indexing, np.unique, np.argsort, recfunctions.stack_arrays/append_fields behave as documented",
            "float arithmetic of the implementation is exact on the generated dyadic data (not verified)"]
 ASSUMPTIONS = ["IEEE-754 arithmetic is exact on the small dyadic energies, offsets and tolerances generated",
-               "np.argsort may return any order of tied keys (sorted slices and `first` are checked relationally)"]
-PARTIAL = []
+               "np.argsort may return any order of tied keys: the order it returns for the same key vector is observed, checked to be an admissible argsort, and the implementation's slice / first must equal the code shape record[order[selector]] / record[order[0]] exactly (plus the relational check)"]
+PARTIAL = ["C14_deferred_inplace_change_vartype_receiver_refuted is the open finding C14-deferred-inplace stated on the faithful model: change_vartype(inplace=True) on a pending sample set returns a new wrapper and the receiver, resolved on its own, is unconverted; every other receiver/returned-handle law of the deferred state machine is proved"]
